@@ -663,6 +663,8 @@ func checkC07(rep *Report, rng *Rng, tier string) {
 	}
 	rep.Extra["lookups_with_a_failing_read_compared_with_model"] = readFaultsCompared
 	rep.Extra["fault_runs_compared_with_byte_level_model"] = dfaultCompared
+	rep.Extra["faulted_histories_meeting_fhistory_ok"] = dfaultHistOK
+	rep.Extra["faulted_histories_outside_fhistory_ok"] = dfaultHistNotOK
 	rep.Extra["failed_flushes_compared_with_flush_fault"] = dfaultFlushFails
 	for k, n := range st.Known {
 		rep.Violation(k, false, map[string]interface{}{"hits": n})
